@@ -575,7 +575,10 @@ def run(rep, tier):
     progs = env.extract(tus, 'full')
     rep.saw_programs(progs.values())
     n = 0
+    from . import c07 as _c07
+    rep.rule('R07k', 'numeric_limits<T>::infinity() only for floating-point T (0 for integral weight types: tree distances and candidate weights collapse)', floor=0)
     for prog in progs.values():
+        _c07.r07k(rep, prog, only_files=('lex_dijkstra', 'detail/util.hpp', 'sptrees', 'cycles.hpp', 'fvs.hpp'))
         n += check_program(rep, prog)
         r14e(rep, prog)
         check_live_references(rep, prog)
